@@ -1,12 +1,37 @@
+import os
+import re
 import svlib
+
+
+def e2e_replays(ctx):
+    """Informational: replay the candidate findings from real manifests through BuildPlan::from_pkg_opts
+    (write Forc.lock, then load it again with --locked). Never fails the check; recorded in the evidence."""
+    if not svlib.cargo_build(ctx, ["sv_c20_e2e"]):
+        ctx.broken.pop()  # informational step only
+        ctx.extra["e2e_replays"] = ["not built"]
+        return
+    exe = os.path.join(svlib.HARNESS, "target/debug", "sv_c20_e2e")
+    rc, out, dt = svlib.sh([exe], cwd=ctx.work, timeout=600)
+    res = []
+    for l in re.sub(r"/(tmp|var/tmp)/\.tmp\w+", "<tmp>", out).splitlines():
+        if " first=" in l and " locked=" in l:
+            name = l.split()[0]
+            first = l.split(" first=")[1].split(" locked=")[0][:160]
+            locked = l.split(" locked=")[1].split(" lock=[")[0][:260]
+            res.append({"scenario": name, "first_build": first, "second_build_locked": locked})
+            ctx.count("e2e.%s.locked=%s" % (name, "ok" if locked == "ok" else "fails"))
+    ctx.extra["e2e_replays"] = res or [out[-300:]]
+    ctx.log("e2e replays: " + ", ".join("%s=%s" % (r["scenario"], "ok" if r["second_build_locked"] == "ok" else "LOCK-NOT-REREAD") for r in res))
+
 
 SPEC = dict(
     id="C20", level="proof",
     lean_targets=["SwayVerif.Props.C20"], audit="SwayVerif/Audit/C20.lean",
     theorems=["pinned_roundtrip", "depline_roundtrip", "C20_roundtrip_any_order", "C20_roundtrip", "C20_prop_of_model"],
     steps=[dict(bin="sv_c20", area="c20", n_quick=6000, n_thorough=120000, corpus="corpus/c20.txt",
-                dist_keys=("wf", "cls", "eq", "thm", "a", "nodes", "edges", "dis", "contract", "renamed"),
+                dist_keys=("wf", "why", "cls", "eq", "thm", "a", "nodes", "edges", "dis", "contract", "renamed"),
                 nontrivial=lambda case, impl, kv: kv.get("wf") == "1" and kv.get("edges") != "0")],
+    custom=[e2e_replays],
     rule="random real forc_pkg::Graph values: 1-6 packages (names from a small pool so that same-named packages "
          "from different sources are frequent), sources member / path / git (https, scp-like, ssh; branch, tag, rev, "
          "default-branch) / ipfs (CIDv0, v1) / registry (with and without namespace), 0-2n edges via update_edge with "
